@@ -10,10 +10,11 @@ thread_local! {
     static BYTES: Cell<usize> = const { Cell::new(0) };
     static CALLS: Cell<usize> = const { Cell::new(0) };
     // allocation-failure injection (current thread only): while WATCH is set every allocation call is
-    // counted in SEEN, and if FAIL is set the first one returns null (and clears FAIL)
+    // counted in SEEN, and if FAIL is set every one of them returns null
     static WATCH: Cell<bool> = const { Cell::new(false) };
     static FAIL: Cell<bool> = const { Cell::new(false) };
     static SEEN: Cell<usize> = const { Cell::new(0) };
+    static HIT: Cell<bool> = const { Cell::new(false) };
 }
 
 /// true if this allocation call has to fail
@@ -25,14 +26,21 @@ fn inject() -> bool {
                 return false;
             }
             let _ = SEEN.try_with(|c| c.set(c.get() + 1));
-            FAIL.try_with(|f| f.replace(false)).unwrap_or(false)
+            // every allocation call of the watched window fails (a growth strategy that retries with a
+            // smaller request must not turn the injected failure into a success)
+            let fail = FAIL.try_with(|f| f.get()).unwrap_or(false);
+            if fail {
+                let _ = HIT.try_with(|h| h.set(true));
+            }
+            fail
         })
         .unwrap_or(false)
 }
 
-/// start watching the current thread's allocation calls; with `fail` the first one returns null
+/// start watching the current thread's allocation calls; with `fail` all of them return null
 pub fn watch_start(fail: bool) {
     SEEN.with(|c| c.set(0));
+    HIT.with(|h| h.set(false));
     FAIL.with(|f| f.set(fail));
     WATCH.with(|w| w.set(true));
 }
@@ -40,8 +48,8 @@ pub fn watch_start(fail: bool) {
 /// stop watching; returns (allocation calls seen, whether the requested failure was delivered)
 pub fn watch_stop(requested: bool) -> (usize, bool) {
     WATCH.with(|w| w.set(false));
-    let pending = FAIL.with(|f| f.replace(false));
-    (SEEN.with(|c| c.get()), requested && !pending)
+    FAIL.with(|f| f.set(false));
+    (SEEN.with(|c| c.get()), requested && HIT.with(|h| h.get()))
 }
 
 #[inline]
